@@ -446,6 +446,9 @@ func generateSafeImageFileName(imageID int, originalFileName string, format Imag
 
 // AddImageFromData 从数据添加图片到文档
 func (d *Document) AddImageFromData(imageData []byte, fileName string, format ImageFormat, width, height int, config *ImageConfig) (*ImageInfo, error) {
+	// 保存图片数据的副本：调用方之后可以继续使用（复用）自己的缓冲区，已添加的图片不受影响
+	imageData = append([]byte(nil), imageData...)
+
 	if d.documentRelationships == nil {
 		d.documentRelationships = &Relationships{
 			Xmlns:         "http://schemas.openxmlformats.org/package/2006/relationships",
@@ -500,6 +503,9 @@ func (d *Document) AddImageFromData(imageData []byte, fileName string, format Im
 // AddImageFromDataWithoutElement 从数据添加图片到文档但不创建段落元素
 // 此方法供模板引擎等需要自行管理图片段落的场景使用
 func (d *Document) AddImageFromDataWithoutElement(imageData []byte, fileName string, format ImageFormat, width, height int, config *ImageConfig) (*ImageInfo, error) {
+	// 保存图片数据的副本：调用方之后可以继续使用（复用）自己的缓冲区，已添加的图片不受影响
+	imageData = append([]byte(nil), imageData...)
+
 	if d.documentRelationships == nil {
 		d.documentRelationships = &Relationships{
 			Xmlns:         "http://schemas.openxmlformats.org/package/2006/relationships",
